@@ -364,7 +364,8 @@ MUST_HIT = {
     "C14": {"af.reference_decayed_nonzero": 3, "af.reference_reset_after_an_hour": 10, "af.reference_kept_inside_filter_period": 50, "af.reference_reset_beyond_decay": 3,
             "af.accumulator_at_maximum": 20, "af.step_spans_several_groups": 20, "af.skipped_step": 30, "af.major_swap": 10, "af.negative_tick_group": 30},
     "C16": {"swap.input_mint_has_transfer_fee": 30, "swap.output_mint_has_transfer_fee": 30, "liq.transfer_fee_mint": 50},
-    "C17": {"twohop.exact_out": 10, "twohop.explicit_limit": 10, "twohop.mixed_direction": 10, "twohop.same_direction": 10, "twohop.leg_crosses_a_tick": 3},
+    "C17": {"twohop.exact_out": 10, "twohop.explicit_limit": 10, "twohop.mixed_direction": 10, "twohop.same_direction": 10, "twohop.leg_crosses_a_tick": 3,
+            "refused.twohop_first_leg_before_trade_enabled": 5, "refused.twohop_second_leg_before_trade_enabled": 5, "refused.twohop_v1_second_leg_before_trade_enabled": 3},
     "C20": {"swap.adaptive_fee_pool": 30, "swap.crosses_a_tick": 5, "swap.input_mint_has_transfer_fee": 10, "af.skipped_step": 10},
 }
 
